@@ -63,6 +63,10 @@ type Env struct {
 // readWF records that value v of type t was read from the heap in state env.st.
 func (env *Env) readWF(v Term, t types.Type) {
 	cs := env.e.wf(v, t, env.st.alloc)
+	if isInterface(t) {
+		// for values inside quantified formulas only the allocation bound matters
+		cs = []Term{fmt.Sprintf("(< (vref %s) %s)", v, env.st.alloc)}
+	}
 	if len(cs) == 0 {
 		return
 	}
@@ -742,6 +746,27 @@ func (env *Env) mapContent(m TV) (dom, val Term, mt *types.Map, err error) {
 func (env *Env) evalCall(n *Call) (TV, error) {
 	e := env.e
 	switch n.Fn {
+	case "ghostin":
+		// ghostin(set, e): e is a member of the ghost set
+		if len(n.Args) != 2 {
+			return TV{}, fmt.Errorf("ghostin(set, expr)")
+		}
+		gk := "gs:" + flattenName(n.Args[0])
+		v, err := env.eval(n.Args[1])
+		if err != nil {
+			return TV{}, err
+		}
+		var setT Term
+		if t, ok := env.st.ghost[gk]; ok {
+			setT = t
+		} else if t, ok := e.ghostEntry[gk]; ok {
+			setT = t
+		} else {
+			e.famSort["ghost:"+gk] = "(Array String Bool)"
+			setT = e.declare("ghost:"+gk, "(Array String Bool)")
+			e.ghostEntry[gk] = setT
+		}
+		return TV{fmt.Sprintf("(select %s %s)", setT, v.T), tyBool}, nil
 	case "atcall":
 		// atcall(contract, e): e evaluated in the heap right after the first call of the contract in this activation
 		if len(n.Args) != 2 {
